@@ -243,6 +243,7 @@ def list_method(self, st, ref, o, name, args, kwargs, node):
         return [(st, "val", None)]
     if name == "extend":
         self.emit(st, ("extend", ref.oid, o.label, args[0]))
+        self.emit(st, ("mutate", ref.oid, o.label, "extend"))
     if name == "extend" and "@sat1" in o.fields:
         a0 = args[0]
         grow = True
@@ -403,6 +404,7 @@ def construct(self, st, cv, args, kwargs, node):
             ref = st.alloc(HObj(ci, {"args": tuple(args)}, kind="exc", open=True))
             return [(st, "val", ref)]
         ref = st.alloc(HObj(ci, {}, kind="obj"))
+        st.obj(ref).synthetic = False
         init = ci.lookup("__init__")
         if init is None:
             return [(st, "val", ref)]
